@@ -1,9 +1,12 @@
 //! Conformance harness binding the TLA+ specifications in /verif/spec to the real conjure-rust crates.
 //! Every subcommand reads NDJSON cases (emitted by TLC or by the seeded drivers in /verif/lib) on stdin
 //! and prints one NDJSON verdict/observation per case on stdout.  Panics of the code under test are data.
+mod anyval;
 mod body;
 mod codegen;
+mod dynval;
 mod negotiate;
+mod recser;
 mod safelong;
 mod tokens;
 mod uri;
@@ -17,6 +20,7 @@ fn main() {
         "codegen-safe" => codegen::codegen_safe(rest),
         "negotiate" => negotiate::negotiate(rest),
         "uri" => uri::uri(rest),
+        "any" => anyval::anyval(rest),
         "tokens" => tokens::tokens(rest),
         "safelong" => safelong::safelong(rest),
         "body" => body::body(rest),
